@@ -368,6 +368,9 @@ def retained_tensors(root, limit=2_000_000):
         if isinstance(o, dict):
             stack.extend(o.keys())
             stack.extend(o.values())
+            d = getattr(o, "__dict__", None)  # a dict subclass may carry attributes of its own
+            if isinstance(d, dict):
+                stack.extend(d.values())
             continue
         if isinstance(o, (list, tuple, set, frozenset)):
             stack.extend(o)
